@@ -69,7 +69,7 @@ def run(ctx):
                     ctx.used(f, tf)
                     g = ctx.an.cfg(tf, cls)
                     set_ids = {n.id for n in g.nodes if n.stmt is not None and n.part == 'post' and any(
-                        last_attr(x) == 'set' and receiver(x) == f'self.{ev}' for x in calls_in(n.stmt))}
+                        last_attr(x) == 'set' and receiver(x) == f'self.{ev}' for x in n.calls())}
                     exits = {n.id for n in g.exits()}
                     p = g.find_path([g.entry], lambda n: n.id in exits, edge_ok=lambda e: e.kind != 'async', node_ok=lambda n: n.id not in set_ids)
                     ctx.check('R1', f'{f.short} waits (untimed) on {ev}: every exit of {tf.short} passes {ev}.set()', p is None and bool(set_ids),
@@ -98,7 +98,7 @@ def run(ctx):
             if last_attr(c) in ('recv', 'get') and r.startswith('self.') and r.endswith('.parent_end') and not c.args:
                 n_recv += 1
                 pipe = r
-                rn = [n for n in g.nodes if n.stmt is not None and n.part == 'eval' and any(x is c for x in calls_in(n.stmt))]
+                rn = [n for n in g.nodes if n.stmt is not None and n.part == 'eval' and any(x is c for x in n.calls())]
                 ok, why = guarded_by_wait(g, dom, f, rn, pipe, '.sentinel')
                 ctx.check('R2', f'{f.short}: start-up receive on {pipe} is multiplexed with the child\'s sentinel', ok, f.short,
                           f'bare-startup-recv:{pipe}',
@@ -106,7 +106,7 @@ def run(ctx):
                           'starting never sends it and its creator (constructor / server accept loop) blocks forever', where=loc(f, c))
             if last_attr(c) == 'accept' and f.name == '__setstate__':
                 n_recv += 1
-                rn = [n for n in g.nodes if n.stmt is not None and n.part == 'eval' and any(x is c for x in calls_in(n.stmt))]
+                rn = [n for n in g.nodes if n.stmt is not None and n.part == 'eval' and any(x is c for x in n.calls())]
                 lst = receiver(c)
                 ok, why = guarded_by_wait(g, dom, f, rn, lst, '_socket')
                 ctx.check('R2', f'{f.short}: accept() of the control connection is multiplexed with the client data socket', ok, f.short,
@@ -120,14 +120,14 @@ def run(ctx):
     ctx.used(st, fe)
     gs = ctx.an.cfg(st, RW)
     raises = [n for n in gs.nodes if n.kind == 'stmt' and isinstance(n.stmt, ast.Raise) and n.part in (None, 'eval')]
-    wait_nodes = [n for n in gs.nodes if n.stmt is not None and n.part == 'post' and any(last_attr(c) == 'wait' and not c.args for c in calls_in(n.stmt))]
+    wait_nodes = [n for n in gs.nodes if n.stmt is not None and n.part == 'post' and any(last_attr(c) == 'wait' and not c.args for c in n.calls())]
     after = gs.reachable(wait_nodes, edge_ok=is_flow)
     fail_raises = [n for n in raises if n.id in after]
     ctx.check('R3', 'RemoteWorker._start: a failed handshake is re-raised in the constructor', bool(fail_raises), st.short, 'startup-error-not-raised',
               'RemoteWorker._start does not raise when the frontend reports a failed handshake: the constructor returns a worker without a child',
               where=loc(st, st.node))
     if fail_raises:
-        join_ids = {n.id for n in gs.nodes if n.stmt is not None and n.part == 'post' and any(last_attr(c) == 'join' for c in calls_in(n.stmt))}
+        join_ids = {n.id for n in gs.nodes if n.stmt is not None and n.part == 'post' and any(last_attr(c) == 'join' for c in n.calls())}
         p = gs.find_path(wait_nodes, lambda n: n in fail_raises, edge_ok=is_flow, node_ok=lambda n: n.id not in join_ids)
         ctx.check('R3', 'RemoteWorker._start: the frontend thread is joined before the failure is raised', p is None, st.short, 'frontend-not-joined',
                   'the failure path of RemoteWorker._start raises without joining the frontend thread', where=loc(st, st.node))
@@ -143,8 +143,8 @@ def run(ctx):
     init = W.methods['__init__']
     ctx.used(init)
     g = ctx.an.cfg(init, W)
-    start_post = {n.id for n in g.nodes if n.stmt is not None and n.part == 'post' and any(last_attr(c) == '_start' for c in calls_in(n.stmt))}
-    regs = [n for n in g.nodes if n.stmt is not None and n.part == 'eval' and any(last_attr(c) == 'register_child' for c in calls_in(n.stmt))]
+    start_post = {n.id for n in g.nodes if n.stmt is not None and n.part == 'post' and any(last_attr(c) == '_start' for c in n.calls())}
+    regs = [n for n in g.nodes if n.stmt is not None and n.part == 'eval' and any(last_attr(c) == 'register_child' for c in n.calls())]
     dom = g.dominators(edge_ok=is_flow)
     ok = bool(regs) and bool(start_post) and all(dom.get(n.id, set()) & start_post for n in regs)
     ctx.check('R4', 'Worker.__init__: register_child() is dominated by the completed _start()', ok, 'Worker.__init__', 'register-before-start',
